@@ -304,11 +304,28 @@ def check(ctx) -> None:
     for n in own_nodes(ms_init.node):
         if isinstance(n, ast.Assign) and any(isinstance(t, ast.Attribute) and t.attr == "conditions" for t in n.targets) and isinstance(n.value, (ast.List, ast.Tuple)):
             table = [d for d in n.value.elts if isinstance(d, ast.Dict)]
-    ctx.require(table, "MCSSearch.__init__ no longer defines the conditions table as a list of dict displays")
     common = None
-    for d in table:
-        ks = {const_str(k) for k in d.keys if k is not None}
-        common = ks if common is None else (common & ks)
+    if table:
+        for d in table:
+            ks = {const_str(k) for k in d.keys if k is not None}
+            common = ks if common is None else (common & ks)
+    else:
+        # the table is computed (constants, a helper): fold it
+        from ..constfold import Unfoldable, fold_in
+
+        for n in own_nodes(ms_init.node):
+            if isinstance(n, ast.Assign) and any(isinstance(t, ast.Attribute) and t.attr == "conditions" for t in n.targets):
+                try:
+                    val = fold_in(ms_init, n.value, prog)
+                    if isinstance(val, (list, tuple)) and val and all(isinstance(x, dict) for x in val):
+                        table = list(val)
+                        for x in val:
+                            common = set(x) if common is None else (common & set(x))
+                except Unfoldable:
+                    pass
+    if common is None:
+        ctx.note("C11-X11: the conditions table of MCSSearch is not a literal on this tree; key agreement not decided")
+        common = None
     ens = prog.func("synrbl.SynMCSImputer.SubStructure.mcs_process.ensemble_mcs")
     cond_vars = set()
     for l in own_nodes(ens.node):
@@ -316,6 +333,8 @@ def check(ctx) -> None:
             cond_vars |= {x.id for x in ast.walk(l.target) if isinstance(x, ast.Name)}
     n_x11 = 0
     for n in own_nodes(ens.node):
+        if common is None:
+            break
         if isinstance(n, ast.Subscript) and isinstance(n.ctx, ast.Load) and isinstance(n.value, ast.Name) and n.value.id in cond_vars and const_str(n.slice) is not None:
             n_x11 += 1
             k = const_str(n.slice)
@@ -324,7 +343,7 @@ def check(ctx) -> None:
             ctx.instance("C11-X11", "ensemble_mcs reads condition[%r] (keys of every condition: %s)" % (k, sorted(common)), ens.loc(n), ok=ok)
             if not ok:
                 ctx.finding("C11-X11", "mcs_process.ensemble_mcs:condition-key:%s" % k, ens.loc(n), "ensemble_mcs reads condition[%r], a key that not every search condition defines (common keys: %s): for the condition without it the KeyError leaves the MCS stage and the whole batch is dropped" % (k, sorted(common)))
-    ctx.instance("C11-X11", "%d constant-key read(s) of a condition in ensemble_mcs; table of %d conditions" % (n_x11, len(table)), ens.loc(), ok=True)
+    ctx.instance("C11-X11", "%d constant-key read(s) of a condition in ensemble_mcs; table of %d conditions" % (n_x11, len(table or [])), ens.loc(), ok=True)
     # ---------------------------------------------------------------- X7
     # the per-row jobs keep no state between calls: an outcome that depends on the clock (a timeout) must not be
     # remembered and replayed for other rows (shared with C06-B4, restricted to what the jobs reach)
